@@ -78,7 +78,10 @@ func printHarnessResult(hr *HarnessResult) {
 		fmt.Printf("  UNSUPPORTED x%d: %s\n", n, k)
 	}
 	for _, e := range hr.EngineErrs {
-		fmt.Printf("  ENGINE ERROR: %s\n", e)
+		fmt.Printf("  ENGINE ERROR: %s\n", firstLineOf(e))
+		if os.Getenv("VERIF_VERBOSE") != "" {
+			fmt.Println(e)
+		}
 	}
 	for sig, a := range hr.Violations {
 		var mj []byte
